@@ -6,7 +6,7 @@ import "github.com/KevoDB/kevo/pkg/zzverif/vsym"
 
 // VerifC12_CompactionInWorkload: a workload of put+flush / delete+flush steps (each leaves a level-0 table) with
 // triggered compaction cycles at any point and with "retire the flushed logs and reopen" steps, on an engine whose
-// level-0 trigger is two tables. Compaction never changes what a key reads as - neither in the running engine nor
+// level-0 trigger is two tables - on a fresh database, or on one whose keys already sit in level 2. Compaction never changes what a key reads as - neither in the running engine nor
 // after the database is reopened on the compacted files with the old log files gone: every key keeps the value of
 // its most recent write, a deleted key stays absent.
 func VerifC12_CompactionInWorkload() {
@@ -17,6 +17,10 @@ func VerifC12_CompactionInWorkload() {
 	}
 	h.hKeys(2)
 	h.hOpen(true, false)
+	if vsym.IntRange("aged", 0, 1) == 1 {
+		// the database is not young: both keys already sit two levels down (range compactions push them there)
+		h.hDeepPrelude(2)
+	}
 	n := vsym.IntRange("n", 2, N)
 	compactions := 0
 	for i := 0; i < n; i++ {
@@ -74,5 +78,70 @@ func VerifC12_CrashDuringCompaction() {
 	h.hOpen(false, false)
 	h.hProbeKey(0)
 	h.hProbeKey(1)
+	vsym.Reach("done")
+}
+
+// VerifC12_RangeCompaction: an older generation of some of three keys sits one or two levels down; a newer generation
+// (one or two puts/deletes) is flushed into one level-0 table; then CompactRange over a symbolic key range [lo,hi] is
+// run (one or two such rounds). A range compaction never changes what any key reads as - in the running engine and
+// after the flushed logs are retired and the database is reopened on the tables alone: newer data must not end up
+// below older data, a deleted key must not come back.
+func VerifC12_RangeCompaction() {
+	h := &hEnv{maxMem: 2}
+	h.hKeys(3)
+	h.hOpen(true, false)
+	e := h.e
+	mask := vsym.IntRange("older", 1, 7)
+	first, last := -1, -1
+	for i := 0; i < 3; i++ {
+		if mask&(1<<i) != 0 {
+			v := vsym.Bytes("ov", 1)
+			vsym.Assert(e.Put(h.K[i], v) == nil, "Put failed")
+			h.present[i], h.val[i] = true, v
+			if first < 0 {
+				first = i
+			}
+			last = i
+		}
+	}
+	vsym.Assert(e.FlushImMemTables() == nil, "Flush failed")
+	depth := 1
+	if vsym.Thorough() {
+		depth = vsym.IntRange("depth", 1, 2)
+	}
+	for l := 0; l < depth; l++ {
+		vsym.Assert(e.CompactRange(h.K[first], h.K[last]) == nil, "CompactRange failed")
+	}
+	rounds := 1
+	if vsym.Thorough() {
+		rounds = vsym.IntRange("rounds", 1, 2)
+	}
+	for r := 0; r < rounds; r++ {
+		w := vsym.IntRange("writes", 1, 2)
+		for j := 0; j < w; j++ {
+			ki := vsym.IntRange("ki", 0, 2)
+			if vsym.IntRange("del", 0, 1) == 0 {
+				v := vsym.Bytes("nv", 1)
+				vsym.Assert(e.Put(h.K[ki], v) == nil, "Put failed")
+				h.present[ki], h.val[ki] = true, v
+			} else {
+				vsym.Assert(e.Delete(h.K[ki]) == nil, "Delete failed")
+				h.present[ki] = false
+			}
+		}
+		vsym.Assert(e.FlushImMemTables() == nil, "Flush failed")
+		lo := vsym.IntRange("lo", 0, 2)
+		hi := vsym.IntRange("hi", lo, 2)
+		vsym.Assert(e.CompactRange(h.K[lo], h.K[hi]) == nil, "CompactRange failed")
+		for i := 0; i < 3; i++ {
+			h.hProbeKey(i)
+		}
+	}
+	vsym.Assert(e.Close() == nil, "Close failed")
+	h.retireLogs()
+	h.hOpen(false, false)
+	for i := 0; i < 3; i++ {
+		h.hProbeKey(i)
+	}
 	vsym.Reach("done")
 }
